@@ -3,7 +3,7 @@ import ast
 
 from ..core import Property, AnalysisError, unparse, norm, walk_no_nested
 from ..cfg import build_cfg
-from ..sym import show
+from ..sym import show, Interp, S, State, term
 from ..dfa import guards_of, ReachingDefs
 from ..query import queries_in, resolved_filters, parse_chain
 from .. import mut
@@ -907,3 +907,88 @@ def outputs_numbered(ctx):
             ctx.require(p_ is None, q, '%s is changed by %s and the method can return without numbering the outputs (%s)' % (lst, how, g.describe_path(p_) if p_ else ''), y,
                         'outputs carry a number that is not their position: the wallet stores two outputs under the same number (one is lost from the ledger) or lists an outpoint that does not exist on chain')
     ctx.floor(n, 5, 'changes of output lists')
+
+
+@PROP.obligation('C08.account-zero', canaries=[
+    mut.replace_expr(W, 'WalletTransaction.__init__', 'account_id is None', 'not account_id', 'account 0 is replaced by the default account of the wallet'),
+])
+def account_zero(ctx):
+    """Account 0 is an account (the first one of BIP44), not "no account given". The statements of WalletTransaction.__init__ that settle the
+    account are evaluated in a wallet whose default account is 5: account_id=0 stays 0, account_id=3 stays 3 and only account_id=None
+    becomes 5. A transaction sent from account 0 that is booked under account 5 leaves balance(account_id=0) and utxos(account_id=0)
+    empty while the keys of account 0 hold the change."""
+    q = W + ':WalletTransaction.__init__'
+    fn = ctx.repo.func(q)
+    stop = [i for i, s_ in enumerate(fn.body) if any(isinstance(c, ast.Call) and norm(c.func) == 'Transaction.__init__' for c in ast.walk(s_))]
+    if not stop:
+        ctx.undecided('WalletTransaction.__init__: call of Transaction.__init__ not found')
+    stmts = [s_ for s_ in fn.body[:stop[0]] if not isinstance(s_, ast.Assert) and any('account_id' in norm(x) for x in ast.walk(s_))]
+    HW = ('var', 'hdwallet')
+    n = 0
+    for given, exp in ((0, 0), (3, 3), (None, 5)):
+        it = Interp(ctx.repo, W, self_cls='wallets:WalletTransaction')
+        st = State(env={'self': S(('var', 'self')), 'hdwallet': S(HW), 'account_id': given})
+        st.heap[('attr', HW, 'default_account_id')] = 5
+        st.heap[('attr', ('var', 'self'), 'hdwallet')] = S(HW)
+        it.frames.append([])
+        try:
+            end = it.exec_block(stmts, st)
+        except AnalysisError as e:
+            ctx.undecided('WalletTransaction.__init__: account statements not evaluable: %s' % str(e)[:100])
+        it.frames.pop()
+        if end is None:
+            ctx.undecided('WalletTransaction.__init__: account statements raise')
+        got = end.heap.get(('attr', ('var', 'self'), 'account_id'))
+        n += 1
+        ctx.saw('WalletTransaction(wallet with default account 5, account_id=%r) -> self.account_id = %r' % (given, got if not isinstance(got, S) else show(term(got))))
+        ctx.require(got == exp and not isinstance(got, bool), q, 'account_id=%r in a wallet whose default account is 5 gives self.account_id = %s, expected %r' % (given, got if not isinstance(got, S) else show(term(got)), exp), stmts[-1],
+                    'send_to(addr, amount, account_id=0) books the transaction and its change under account 5: balance(account_id=0) is 0 and the change is listed for an account that does not own the key')
+    ctx.floor(n, 3, 'account scenarios')
+
+
+@PROP.obligation('C08.bulk-changes-own-rows', canaries=[
+    mut.replace_expr(W, 'WalletTransaction.delete', 'session.query(DbTransaction).filter_by(txid=txid, wallet_id=self.hdwallet.wallet_id)', 'session.query(DbTransaction).filter_by(txid=txid)', 'a transaction is deleted by txid in every wallet of the database'),
+    mut.replace_expr(W, 'WalletTransaction.delete', 'session.query(DbKey).filter_by(latest_txid=txid, wallet_id=self.hdwallet.wallet_id)', 'session.query(DbKey).filter_by(latest_txid=txid)', 'keys of other wallets are reset'),
+])
+def bulk_changes_own_rows(ctx):
+    """Several wallets share one database, and a transaction between two of them is stored once per wallet under the same txid. Every
+    query of wallets.py on DbTransaction or DbKey (the tables with a wallet_id column) that ends in a bulk .delete() / .update() -
+    directly or through the local variable that holds the query - selects by wallet_id or by primary key. A query by txid alone
+    deletes (or, with .scalar(), refuses to find) the rows of the other wallet: its balance no longer equals its unspent outputs."""
+    mod = ctx.repo.mod('wallets')
+    n = 0
+    for name, fn in sorted(mod.functions.items()):
+        q = 'wallets:' + name
+        roots = {}
+        for a in walk_no_nested(fn):
+            if isinstance(a, ast.Assign) and len(a.targets) == 1 and isinstance(a.targets[0], ast.Name):
+                qs = parse_chain(a.value)
+                if qs is not None and (qs.models or qs.base_name):
+                    roots.setdefault(a.targets[0].id, []).append(qs)
+
+        def resolve(qs, depth=0):
+            """[(models, predicate texts)] for every way the chain can be rooted"""
+            preds = list(qs.filters) + ['%s=%s' % kv for kv in qs.filter_by.items()]
+            if qs.models:
+                return [(qs.models, preds)]
+            out = []
+            if depth < 4:
+                for r in roots.get(qs.base_name, []):
+                    if r is qs:
+                        continue
+                    for models, p2 in resolve(r, depth + 1):
+                        out.append((models, p2 + preds))
+            return out
+        for x in queries_in(fn):
+            if x.terminal not in ('delete', 'update'):
+                continue
+            for models, preds in resolve(x):
+                if not models or models[0] not in ('DbTransaction', 'DbKey'):
+                    continue
+                n += 1
+                txt = ' '.join(preds)
+                scoped = 'wallet_id' in txt or any(p.startswith('id=') or '.id ==' in p or '.id.in_' in p for p in preds)
+                ctx.saw('%s: %s rows are changed by .%s() selected by [%s]' % (name, models[0], x.terminal, txt[:80]))
+                ctx.require(scoped, q, 'a bulk .%s() on %s selects its rows by `%s`: neither the wallet nor a primary key' % (x.terminal, models[0], txt[:80]), x.node,
+                            'with two wallets of one database holding the same transaction, transaction_delete in one raises MultipleResultsFound or removes / resets the rows of the other wallet')
+    ctx.floor(n, 4, 'bulk changes of wallet tables')
